@@ -14,8 +14,19 @@ namespace H2.Server
 structure Lock where
   flow : Flow.St := Flow.init
   flowOn : Bool := true
+  /-- END_STREAM-carrying DATA frames so far, per stream, as the full model emitted them -/
+  fullFins : List (Nat × Nat) := []
+  /-- streams whose body is streamed: the reader may report its end on a read of its own, so END_STREAM can
+  come one step after the last octet -/
+  streamed : List Nat := []
   mismatches : List String := []
 deriving Inhabited
+
+def bump1 (l : List (Nat × Nat)) (sid : Nat) : List (Nat × Nat) :=
+  if l.any (·.1 == sid) then l.map fun p => if p.1 == sid then (p.1, p.2 + 1) else p else l ++ [(sid, 1)]
+
+def finsOf (outs : List Out) (acc : List (Nat × Nat)) : List (Nat × Nat) :=
+  outs.foldl (fun acc o => match o with | .data sid true _ _ => bump1 acc sid | _ => acc) acc
 
 def dataBySid (outs : List Out) : List (Nat × Nat) :=
   outs.foldl (fun acc o => match o with
@@ -69,7 +80,20 @@ def Lock.step (l : Lock) (before : Srv) (ev : Event) (r : R) : Lock :=
   | none => { l with flowOn := false }
   | some evs =>
     let (st, outs) := Flow.run l.flow evs
-    let ok := sameTotals (dataBySid r.out) (flowBySid outs)
+    let fullFins := finsOf r.out l.fullFins
+    let streamed := match ev with
+      | .done sid resp => if resp.kind == "stream" then l.streamed ++ [sid] else l.streamed
+      | _ => l.streamed
+    -- END_STREAM: never more often than the abstract model says (at most once), and for buffered bodies
+    -- exactly when it says
+    let finOk := fullFins.all fun p =>
+      match st.strms.find? (·.id == p.1) with
+      | some fs => p.2 ≤ fs.fins && (streamed.contains p.1 || p.2 == fs.fins)
+      | none => false
+    let finOk2 := st.strms.all fun fs =>
+      streamed.contains fs.id || fs.fins == ((fullFins.find? (·.1 == fs.id)).map (·.2)).getD 0
+    let l := { l with fullFins := fullFins, streamed := streamed }
+    let ok := sameTotals ((dataBySid r.out).filter (·.2 > 0)) (flowBySid outs) && finOk && finOk2
     { l with flow := st, mismatches := if ok then l.mismatches else l.mismatches ++ [s!"flow full={dataBySid r.out} abstract={flowBySid outs} evs={evs.length} fwd={r.fwd.length} cw={l.flow.cw} strms={l.flow.strms.map fun x => (x.id, x.window, x.pending, x.responded, x.running)}"] }
 
 end H2.Server
